@@ -47,7 +47,9 @@ CONSTANTS AsCoded,       \* BOOLEAN, see above
           MaxNotes,      \* notifications sent by the service after the subscribe call returned
           SzRet, SzBig, SzErr, SzInv   \* len(Result)+len(Error) of the responses of the test service
 
-(* entry  = [k |-> "call"|"notif"|"inv"|"resp", id |-> 0.., m |-> "ret"|"err"|"big"|"blk"|"sub"|"-"]   *)
+(* entry  = [k |-> "call"|"notif"|"inv"|"resp", id |-> 0.., m |-> "ret"|"err"|"big"|"blk"|"cblk"|"sub"|"-"] *)
+(* "blk" blocks until the environment releases it and ignores its context, "cblk" blocks until its       *)
+(* context is cancelled.                                                                                 *)
 (* message = [batch |-> BOOLEAN, items |-> Seq(entry)]   (non-batch: exactly one item)                 *)
 
 VARIABLES nrecv, msg,            \* messages read so far
@@ -117,7 +119,7 @@ Immediate(e, j) ==
   CASE e.k = "inv"                  -> R(e.id, "invalid")
     [] e.m = "ret"                  -> R(e.id, "ok")
     [] e.m = "big"                  -> R(e.id, "ok")
-    [] e.m = "blk"                  -> R(e.id, "ok")
+    [] e.m \in {"blk", "cblk"}       -> R(e.id, "ok")
     [] e.m = "err"                  -> R(e.id, "err")
     [] e.m = "sub" /\ Mode = "http" -> R(e.id, "err")            \* ErrNotificationsUnsupported
     [] e.m = "sub"                  -> [id |-> e.id, kind |-> "ok", sub |-> j]
@@ -160,8 +162,8 @@ Loop(p) ==
        THEN /\ pc' = [pc EXCEPT ![p] = "fin1"]
             /\ UNCHANGED <<calls, cur, resp, wrote, bytes, ans, subs, out>>
        ELSE LET e == calls[p][1] IN
-            IF e.k # "inv" /\ e.m = "blk"
-              THEN /\ pc' = [pc EXCEPT ![p] = "blocked"] /\ cur' = [cur EXCEPT ![p] = e]
+            IF e.k # "inv" /\ e.m \in {"blk", "cblk"}
+              THEN /\ pc' = [pc EXCEPT ![p] = IF e.m = "blk" THEN "blocked" ELSE "cblocked"] /\ cur' = [cur EXCEPT ![p] = e]
                    /\ UNCHANGED <<calls, resp, wrote, bytes, ans, subs, out>>
               ELSE LET mksub == e.k # "inv" /\ e.m = "sub" /\ Mode # "http"
                        j == Len(subs) + 1
@@ -171,6 +173,11 @@ Loop(p) ==
 
 Release(p) ==         \* environment: the blocking method of p is allowed to return
   /\ pc[p] = "blocked"
+  /\ pc' = [pc EXCEPT ![p] = "ret"]
+  /\ UNCHANGED <<nrecv, msg, calls, cur, resp, wrote, cancelled, timer, bytes, ans, subs, out>>
+
+CtxReturn(p) ==       \* a cancellation-aware method ("cblk": <-ctx.Done()) returns once its context is cancelled
+  /\ pc[p] = "cblocked" /\ cancelled[p]
   /\ pc' = [pc EXCEPT ![p] = "ret"]
   /\ UNCHANGED <<nrecv, msg, calls, cur, resp, wrote, cancelled, timer, bytes, ans, subs, out>>
 
@@ -243,7 +250,7 @@ Notify(j) ==
   /\ UNCHANGED <<nrecv, msg, pc, calls, cur, resp, wrote, cancelled, timer, bytes, ans>>
 
 -----------------------------------------------------------------------------
-Internal == \E p \in Procs : Start(p) \/ Loop(p) \/ Return(p) \/ Fin1(p) \/ Fin2(p) \/ Fin3(p) \/ TimerRespond(p)
+Internal == \E p \in Procs : Start(p) \/ Loop(p) \/ Return(p) \/ CtxReturn(p) \/ Fin1(p) \/ Fin2(p) \/ Fin3(p) \/ TimerRespond(p)
 Env == \/ \E m \in Messages : Recv(m)
        \/ \E p \in Procs : Release(p) \/ TimerFire(p) \/ TimerCancel(p)
        \/ \E j \in 1..Len(subs) : Notify(j)
